@@ -221,6 +221,32 @@ def clause5_callbacks(ctx, P, cg):
     ctx.floor("C13.5 R-ORDER", 2)
 
 
+def clause6_target(ctx, P):
+    f = P.fn("http_server.c:find_url_handler")
+    cs = f.calls(("strncmp", "memcmp"))
+    ok = len(cs) == 1
+    why = "expected exactly one comparison"
+    if ok:
+        c = cs[0]
+        n = P.term(f, c.a[2])
+        a0, a1 = P.term(f, c.a[0]), P.term(f, c.a[1])
+        is_target = lambda t: t[0] == "load" and Q.mentions(t, lambda x: x[0] == "field" and x[3] == "request_target")
+        tgt, other = (a0, a1) if is_target(a0) else (a1, a0)
+        full = Q.is_call_to(n, "strlen") and n[2][0] == tgt
+        is_url = other[0] == "param" and other[1] == 1
+
+        def fits(atom, pol):
+            if atom[0] != "cmp" or atom[2] != n or not (atom[3][0] == "param" and atom[3][1] == 2):
+                return False
+            return (atom[1] if pol else Q.negate_pred(atom[1])) in ("ule", "eq")
+        guarded = Q.must_pass(P, f, c.block, fits)
+        ok = is_target(tgt) and full and is_url and guarded
+        why = "compares strlen(target) bytes=%s, against the url=%s, under strlen(target) <= url_length=%s" % (full, is_url, guarded)
+    ctx.ob("C13.6 R-PAIR", f, "whole-target-compared", ok,
+           "a url handler is selected without comparing the WHOLE configured target with the request path (%s): a proper prefix of "
+           "the target (e.g. '/api') is upgraded like the target itself" % why)
+
+
 def run(ctx):
     for cfg in ctx.configs(["default"] if ctx.tier == "quick" else None):
         P, cg = cfg.P, cfg.cg
@@ -229,3 +255,4 @@ def run(ctx):
         clause3_reject(ctx, P, cg)
         clause4_status(ctx, P)
         clause5_callbacks(ctx, P, cg)
+        clause6_target(ctx, P)
